@@ -84,5 +84,9 @@ example : ReaderBuf.offers âŸ¨Generated.Reader.needGrow, fun _ cap _ => 2 * capâ
     control skeleton the model was written against (`Proofs/Skeletons.lean`, one `rfl` per function
     or clause; DESIGN.md Â§11.6a) -/
 theorem streams_skeletons : Skeletons.StreamsShape := Skeletons.streams_shape
+theorem f_logstream_reader_skeletons : Skeletons.F_logstream_readerShape := Skeletons.f_logstream_reader_shape
+theorem f_logstream_filestream_skeletons : Skeletons.F_logstream_filestreamShape := Skeletons.f_logstream_filestream_shape
+theorem f_tailer_tail_skeletons : Skeletons.F_tailer_tailShape := Skeletons.f_tailer_tail_shape
+theorem f_logstream_logstream_skeletons : Skeletons.F_logstream_logstreamShape := Skeletons.f_logstream_logstream_shape
 
 end MtailVerif.C16
